@@ -125,6 +125,14 @@ def run_property(prop, tier="quick", seed=0, write_baseline=False, only=None, ve
         except Exception as e:  # noqa: BLE001
             ok, msg = False, f"{type(e).__name__}: {e}"
         struct_results.append((n, ok, msg))
+    gen_count = 0
+    for gprop, gname, gfn in decl.GENERATORS:
+        if gprop == prop and not only:
+            fr = verify.FunctionResult(f"generated:{gname}")
+            fr.path, fr.lineno, fr.sha1 = "<data>", 0, ""
+            fr.obligations = gfn()
+            gen_count += len(fr.obligations)
+            results.append(fr)
     undecided = []
     for r in results:
         if r.status != "ok":
